@@ -1209,7 +1209,11 @@ pub fn run(ctx: &Ctx) -> Outcome {
                 f.push((format!("spin fault={:?}", flt), "busy loop".to_string()));
             }
             if !f.is_empty() {
-                fails.lock().unwrap().push((f, e.points.clone()));
+                // (a few failing schedules per case are enough; thousands only cost memory)
+                let mut g = fails.lock().unwrap();
+                if g.len() < 4 {
+                    g.push((f, e.points.clone()));
+                }
             }
             h64(&e.out.as_ref().map(|o| (&o.pending_result, &o.followups)))
         });
@@ -1248,7 +1252,11 @@ pub fn run(ctx: &Ctx) -> Outcome {
                 f.push((format!("spin peer-{:?}", k), "busy loop".to_string()));
             }
             if !f.is_empty() {
-                fails.lock().unwrap().push((f, e.points.clone()));
+                // (a few failing schedules per case are enough; thousands only cost memory)
+                let mut g = fails.lock().unwrap();
+                if g.len() < 4 {
+                    g.push((f, e.points.clone()));
+                }
             }
             h64(&e.out.as_ref().map(|o| &o.ops))
         });
